@@ -80,11 +80,21 @@ def codegen_error_family(ctx: Ctx) -> None:
                 ctx.ob(f"{fq}: raises {name}", ok, at=f, node=n, msg=f"{name} is not the generator's own error type (CodegenError): unsupported input is reported as an arbitrary exception")
             elif isinstance(n, ast.Assert):
                 na += 1
-                key = (fq, norm_text(n, f.node))
-                ctx.ob(f"{fq}: {unparse(n)[:60]} is a tabled Optional-narrowing", key in NARROWING_ASSERTS, at=f, node=n,
+                # confirmed per function (one reason each); inside a confirmed function the assert must be a pure type narrowing
+                # (`x is not None` / isinstance(x, T)) - how its operand is spelled (alias, attribute chain) does not matter
+                ok_fn = fq in {k[0] for k in NARROWING_ASSERTS}
+                ctx.ob(f"{fq}: {unparse(n)[:60]} is a tabled Optional-narrowing", ok_fn and _pure_narrowing(n.test), at=f, node=n, construct=f"narrowing assert in {fq}",
                        msg="assert on generator input: an AssertionError (or nothing, under -O) instead of a CodegenError")
     ctx.floor("explicit raises in the generator", nr, 18)
     ctx.floor("asserts in the generator", na, 24)
+
+
+def _pure_narrowing(t: ast.expr) -> bool:
+    if isinstance(t, ast.BoolOp):
+        return all(_pure_narrowing(v) for v in t.values)
+    if isinstance(t, ast.Compare) and len(t.ops) == 1 and isinstance(t.ops[0], ast.IsNot) and isinstance(t.comparators[0], ast.Constant) and t.comparators[0].value is None:
+        return True
+    return isinstance(t, ast.Call) and isinstance(t.func, ast.Name) and t.func.id == "isinstance"
 
 
 IDENT_FILTERS = {"class_name", "field_name", "constant_name", "import_class", "import_module", "type_name"}
@@ -216,12 +226,15 @@ def duplicate_handling_keyed_like_naming(ctx: Ctx) -> None:
     ok = len(set_q) == 1 and len(set_d) == 1 and g.must_pass(g.entry, set_d[0].id, [set_q[0].id])
     dv = [(st, v) for st, tgt, v in stores(ur.node) if unparse(tgt).endswith(".default") and v is not None]
 
+    # what is stored as the type's new qname (the same value may be used for the default directly)
+    new_qname_texts = {t for st_, tgt_, v_ in stores(ur.node) if unparse(tgt_).endswith(".qname") and v_ is not None for t in value_texts(ur, st_, v_)} - {"None"}
+
     def _mentions_new_qname(st, v) -> bool:
         # the new default is a string built from the (already rewritten) type qname: some hole of the template flows from `<type>.qname`
         for leaf in leaves_at(ur, st, v):
             t = str_template(leaf)
             for kind, hole in t or []:
-                if kind == "hole" and any(x.endswith(".qname") for x in value_texts(ur, st, hole)):
+                if kind == "hole" and (any(x.endswith(".qname") for x in value_texts(ur, st, hole)) or (value_texts(ur, st, hole) & new_qname_texts)):
                     return True
         return False
 
@@ -255,10 +268,18 @@ def free_name_searches_compare_slugs(ctx: Ctx) -> None:
         g = build_cfg(fi.node)
         n = 0
         ok = True
+        seen_ids = set()
         for t in g.nodes:
             if t.kind == "test" and isinstance(t.ast, ast.Compare) and len(t.ast.ops) == 1 and isinstance(t.ast.ops[0], (ast.In, ast.NotIn)) and coll_pred(t.ast.comparators[0]):
                 n += 1
+                seen_ids.add(id(t.ast))
                 ok = ok and _is_slug(fi, t, t.ast.left)
+        # membership tests written as filters of comprehensions / generator expressions (`next(c for c in candidates if slug(c) not in reserved)`)
+        from ..q import atomic_conditions
+        for c in atomic_conditions(fi.node):
+            if id(c) not in seen_ids and isinstance(c, ast.Compare) and len(c.ops) == 1 and isinstance(c.ops[0], (ast.In, ast.NotIn)) and coll_pred(c.comparators[0]):
+                n += 1
+                ok = ok and isinstance(c.left, ast.Call) and call_name_of(c.left) in ("alnum", "get_slug")
         return ok and n > 0, n
 
     na = ctx.repo.func("xsdata.codegen.handlers.disambiguate_choices:DisambiguateChoices.next_available_name")
